@@ -35,7 +35,7 @@ def short_msg(m):
 def run_with(ctx, code, shape, assume=None):
     hm = ctx.hmodel
     d = hm.D.codes[code]
-    h = hm.F.bodies[d["handler"]]
+    h = hm.F.bodies[d.get("dispatcher") or d["handler"]]  # from the dispatcher, like HandlerModel.run
     label, kinds, spec = shape
     pr = P.HandlerPrims(hm.F, hm.R, spec, code=code, mnemonic=d["mnemonic"], opkinds=kinds)
     I = A.Interp(hm.F, intercept=pr.intercept)
@@ -105,6 +105,13 @@ def compute(ctx):
                             for k in ("CF", "PF", "ZF", "SF"):
                                 if "old" in eff[k] and not (k == "CF" and masked >= width):
                                     flagbad.setdefault("flag %s left stale for a non-zero masked count" % k, []).append(c)
+                    wrote = any((e[0] == "reg_write" and U.reg_name(facts, e[2]) == "op0") or
+                                (e[0] == "mem_write" and e[1] != "bytes" and "opmem" in repr(e[2])) for e in o.path.events)
+                    if not wrote:
+                        if masked != 0:
+                            amount.setdefault("destination not written for a non-zero masked count", []).append(c)
+                        elif width == 32 and label == "reg":
+                            amount.setdefault("32-bit register destination not written for a masked-zero count (the write clears bits 63:32)", []).append(c)
                     for e in o.path.events:
                         if e[0] in ("reg_write", "mem_write") and e[1] != "bytes":
                             v = U.strip(e[3])
